@@ -180,6 +180,14 @@ func newEventFromUntrustedJSONV2(eventJSON []byte, roomVersion IRoomVersion) (PD
 		}
 	}
 
+	// Derive the event ID now rather than lazily on first use: EventID() is a
+	// read-only accessor and may be called from several goroutines at once.
+	ref, err := referenceOfEventForVersion(eventJSON, roomVersion)
+	if err != nil {
+		return nil, err
+	}
+	res.EventIDRaw = ref.EventID
+
 	err = CheckFields(res)
 
 	return res, err
@@ -277,6 +285,13 @@ func newEventFromTrustedJSONV2(eventJSON []byte, redacted bool, roomVersion IRoo
 	res.roomVersion = roomVersion.Version()
 	res.redacted = redacted
 	res.eventJSON = eventJSON
+	// Derive the event ID now rather than lazily on first use (see
+	// newEventFromUntrustedJSON); use the WithEventID variant to skip this.
+	ref, err := referenceOfEventForVersion(eventJSON, roomVersion)
+	if err != nil {
+		return nil, err
+	}
+	res.EventIDRaw = ref.EventID
 	return &res, nil
 }
 
